@@ -150,12 +150,13 @@ func RTCP(channel byte, ssrc, rtpTS uint32) *Pub {
 type Rec struct {
 	Name string
 
-	mu     sync.Mutex
-	got    []media.Pack
-	closed int
-	gate   chan struct{} // non-nil: Consume blocks until it is closed
-	parked bool
-	PanicAt int // panic when the n-th pack (1-based) arrives; 0 = never
+	mu          sync.Mutex
+	got         []media.Pack
+	closed      int
+	gate        chan struct{} // non-nil: Consume blocks until it is closed
+	parked      bool
+	PanicAt     int  // panic when the n-th pack (1-based) arrives; 0 = never
+	ClosePanics bool // Close counts the call and then panics too (e.g. a consumer whose connection is nil)
 }
 
 // NewRec returns a recording consumer.
@@ -189,7 +190,11 @@ func (r *Rec) Consume(p media.Pack) {
 func (r *Rec) Close() error {
 	r.mu.Lock()
 	r.closed++
+	cp := r.ClosePanics
 	r.mu.Unlock()
+	if cp {
+		panic("verif: consumer's Close panics on purpose")
+	}
 	return nil
 }
 
